@@ -16,7 +16,7 @@ Definition xmain_table : list xlang := Eval vm_compute in map xlang_of main_tabl
    indented generation), run by the check against pyexpat: hypotheses and root element *)
 Definition spec_doc (l : xlang) (g : gen_type) (indent : N) (keep_ws : bool) (root : node) : bool * bool * option (list xitem) :=
   let o := opts_of_params g indent keep_ws in
-  (lang_ok l, node_ok l o proot None root,
+  (lang_ok l, node_ok_g l o proot None root,
    match info_g l o proot (est0 0) root with
    | Some (_ :: XE n a c :: _, _) => Some (XE n a c :: nil)
    | _ => None
